@@ -43,3 +43,55 @@ def over(s, alphabet: str) -> bool:
         if c not in alphabet:
             return False
     return True
+
+
+def unwrapped(f):
+    """The function under an lru_cache wrapper (or f itself when chfix already removed the wrapper)."""
+    return getattr(f, "__wrapped__", f)
+
+
+def style_parse(s):
+    from rich.style import Style
+    w = getattr(Style.parse, "__wrapped__", None)
+    return w(Style, s) if w is not None else Style.parse(s)
+
+
+def style_normalize(s):
+    from rich.style import Style
+    w = getattr(Style.normalize, "__wrapped__", None)
+    return w(Style, s) if w is not None else Style.normalize(s)
+
+
+def color_parse(s):
+    from rich.color import Color
+    w = getattr(Color.parse, "__wrapped__", None)
+    return w(Color, s) if w is not None else Color.parse(s)
+
+
+def pin(x, lo: int, hi: int) -> int:
+    """Kind P: turn a symbolic int in [lo, hi] into a concrete one by binary search on branches
+    (a balanced decision tree: log2(n) decisions per value instead of CrossHair's linear realize chain)."""
+    while lo < hi:
+        mid = (lo + hi) // 2
+        if x <= mid:
+            hi = mid
+        else:
+            lo = mid + 1
+    return lo
+
+
+def pinb(x) -> bool:
+    return True if x else False
+
+
+def native(fn, *args):
+    """Run fn(*args) as plain CPython (no symbolic tracing).  Only for kind-P obligations whose inputs were all pinned:
+    the solver enumerates the input space, each value is then executed natively on the real code."""
+    try:
+        from crosshair.tracers import NoTracing, is_tracing
+    except Exception:  # pragma: no cover
+        return fn(*args)
+    if not is_tracing():
+        return fn(*args)
+    with NoTracing():
+        return fn(*args)
